@@ -858,8 +858,14 @@ func Spec() *core.Spec {
 		Rule: "all programs of length 0..3 (quick) / 0..4 (thorough) over 10 stage kinds {pass, call next 2x, 3x, call next twice concurrently (hedged; judged on the multiset of events), short-circuit with response, short-circuit with error, replace message, replace context, fail after next, rewrite response} " +
 			"for the client chain (scripted server as transport), the server message chain and the server batch-item chain; every program run once alone and once from 16 goroutines sharing the chain (race detector on); " +
 			"the recorded enter/core/exit trace of every request must equal the trace of a reference interpreter, event for event. the server chains also over a core that panics, returns an error or rejects the protocol version; several clients configured from middleware slices sharing a backing array; client stages that detach a cancelled caller context or answer from a cache under an expired deadline; a message middleware substituting a message with another continuation option / version / item list, compared with a middleware-free executor given the substituted message; distinct = distinct (chain, program)",
-		Required: []string{"programs_run.client", "programs_run.server-message", "programs_run.server-batch-item", "concurrent_runs", "events", "hedged_programs_run", "programs_run.core-panic", "programs_run.core-error", "programs_run.core-version", "substituted_messages.option-changed", "substituted_messages.version-changed", "substituted_messages.retried", "detached_context_runs", "items_with_critical_extension", "item_extension_requests", "stale_connection_calls.mode1", "stale_connection_calls.mode2", "shared_option_clients"},
+		Required: []string{"programs_run.client", "programs_run.server-message", "programs_run.server-batch-item", "concurrent_runs", "events", "hedged_programs_run", "programs_run.core-panic", "programs_run.core-error", "programs_run.core-version", "substituted_messages.option-changed", "substituted_messages.version-changed", "substituted_messages.retried", "detached_context_runs", "items_with_critical_extension", "item_extension_requests", "item_nil_response_requests", "builtin_items_through_item_stages", "stale_connection_clients.cluster", "stale_connection_calls.mode1", "stale_connection_calls.mode2", "shared_option_clients"},
 		Families: []core.Family{
+			{Name: "item-nil-response", N: func(tier string) int {
+				if tier == core.Thorough {
+					return 20000
+				}
+				return 300
+			}, Run: itemNilResponse},
 			{Name: "item-extensions", N: func(tier string) int {
 				if tier == core.Thorough {
 					return 40000
@@ -950,6 +956,9 @@ func itemExtensions(c *core.Ctx, r *core.Rand, i int) {
 		s := s
 		ex.BatchItemUse(func(next kmipserver.BatchItemNext, ctx context.Context, bi *kmip.RequestBatchItem) (*kmip.ResponseBatchItem, error) {
 			id := payloadID(bi.RequestPayload)
+			if bi.Operation == kmip.OperationDiscoverVersions {
+				id = "discover"
+			}
 			logf("stage%d %s ext=%v", s, id, bi.MessageExtension != nil)
 			if s == strip && bi.MessageExtension != nil {
 				cp := *bi
@@ -966,6 +975,13 @@ func itemExtensions(c *core.Ctx, r *core.Rand, i int) {
 	for k := 0; k < n; k++ {
 		id := fmt.Sprintf("x%d-%d", i, k)
 		bi := kmip.RequestBatchItem{Operation: kmip.OperationActivate, UniqueBatchItemID: []byte{byte(k + 1)}, RequestPayload: &payloads.ActivateRequestPayload{UniqueIdentifier: id}}
+		builtin := r.P(1, 4)
+		if builtin {
+			// an item the executor answers itself (no application route): its core is still the innermost stage
+			id = "discover"
+			bi.Operation, bi.RequestPayload = kmip.OperationDiscoverVersions, &payloads.DiscoverVersionsRequestPayload{}
+			c.Count("builtin_items_through_item_stages", 1)
+		}
 		ext, critical := r.P(2, 3), false
 		if ext {
 			critical = r.P(2, 3)
@@ -985,7 +1001,7 @@ func itemExtensions(c *core.Ctx, r *core.Rand, i int) {
 			}
 		}
 		ok := !(has && critical)
-		if ok {
+		if ok && !builtin {
 			want = append(want, "core "+id)
 		}
 		wantOK = append(wantOK, ok)
@@ -1010,6 +1026,80 @@ func itemExtensions(c *core.Ctx, r *core.Rand, i int) {
 		got := resp.BatchItem[k].ResultStatus == kmip.ResultStatusSuccess
 		if got != ok {
 			c.Violation("C19:item-chain:extension-items:outcome", fmt.Sprintf("batch items with message extensions (%s): item %d success=%v, expected %v (the core sees the item handed on by the last stage)", label, k+1, got, ok), nil)
+			return
+		}
+	}
+}
+
+// itemNilResponse: an item stage that returns neither a response nor an error, having called its continuation zero,
+// one or two times. The core ran exactly as often as the continuation was called (it is the innermost stage, reached
+// through the chain only), and the item is reported failed.
+func itemNilResponse(c *core.Ctx, r *core.Rand, i int) {
+	var mu sync.Mutex
+	coreRuns := map[string]int{}
+	ex := kmipserver.NewBatchExecutor()
+	ex.Route(kmip.OperationActivate, kmipserver.HandleFunc(func(ctx context.Context, req *payloads.ActivateRequestPayload) (*payloads.ActivateResponsePayload, error) {
+		mu.Lock()
+		coreRuns[req.UniqueIdentifier]++
+		mu.Unlock()
+		return &payloads.ActivateResponsePayload{UniqueIdentifier: req.UniqueIdentifier}, nil
+	}))
+	nStages := 1 + r.Intn(3)
+	odd := r.Intn(nStages)
+	for s := 0; s < nStages; s++ {
+		s := s
+		ex.BatchItemUse(func(next kmipserver.BatchItemNext, ctx context.Context, bi *kmip.RequestBatchItem) (*kmip.ResponseBatchItem, error) {
+			id := payloadID(bi.RequestPayload)
+			if s == odd && strings.Contains(id, "-nil") {
+				calls := int(id[len(id)-1] - '0')
+				for k := 0; k < calls; k++ {
+					next(ctx, bi)
+				}
+				return nil, nil
+			}
+			return next(ctx, bi)
+		})
+	}
+	n := 1 + r.Intn(4)
+	m := &kmip.RequestMessage{Header: kmip.RequestHeader{ProtocolVersion: kmip.V1_4, BatchCount: int32(n)}}
+	wantRuns := map[string]int{}
+	var wantOK []bool
+	for k := 0; k < n; k++ {
+		id := fmt.Sprintf("n%d-%d-ok", i, k)
+		ok := true
+		if !r.P(1, 2) {
+			wantRuns[id] = 1
+		} else {
+			calls := r.Intn(3)
+			id = fmt.Sprintf("n%d-%d-nil%d", i, k, calls)
+			wantRuns[id] = calls
+			ok = false
+			c.Count(fmt.Sprintf("item_stages_returning_nothing.calls%d", calls), 1)
+		}
+		wantOK = append(wantOK, ok)
+		m.BatchItem = append(m.BatchItem, kmip.RequestBatchItem{Operation: kmip.OperationActivate, UniqueBatchItemID: []byte{byte(k + 1)}, RequestPayload: &payloads.ActivateRequestPayload{UniqueIdentifier: id}})
+	}
+	var resp *kmip.ResponseMessage
+	if p, pv, st := core.Guard(func() { resp = ex.HandleRequest(context.Background(), m) }); p {
+		c.Violation(core.PanicSig(pv, st), fmt.Sprintf("HandleRequest panicked: %v", pv), map[string]any{"stack": st})
+		return
+	}
+	c.Count("item_nil_response_requests", 1)
+	c.Distinct(core.Hash64("item-nil", fmt.Sprint(nStages, odd, wantOK)))
+	label := fmt.Sprintf("%d item stages, stage %d returns (nil, nil) for the marked items", nStages, odd)
+	for id, w := range wantRuns {
+		if coreRuns[id] != w {
+			c.Violation("C19:item-chain:nil-response:core-executions", fmt.Sprintf("%s: the core handler ran %d times for item %q whose stage called its continuation %d times", label, coreRuns[id], id, w), nil)
+			return
+		}
+	}
+	if resp == nil || len(resp.BatchItem) != n {
+		c.Violation("C19:item-chain:nil-response:response", label+": no response item per request item", nil)
+		return
+	}
+	for k, ok := range wantOK {
+		if got := resp.BatchItem[k].ResultStatus == kmip.ResultStatusSuccess; got != ok {
+			c.Violation("C19:item-chain:nil-response:outcome", fmt.Sprintf("%s: item %d success=%v, expected %v (what the outermost stage returns is the item's result)", label, k+1, got, ok), nil)
 			return
 		}
 	}
@@ -1071,7 +1161,16 @@ func staleConnections(c *core.Ctx, r *core.Rand, i int) {
 			return next(ctx, m)
 		})
 	}
-	cl, err := kmipclient.Dial("mem", kmipclient.WithDialerUnsafe(func(context.Context) (net.Conn, error) { return srv.L.Dial() }), kmipclient.EnforceVersion(kmip.V1_4), kmipclient.WithMiddlewares(mws...))
+	copts := []kmipclient.Option{kmipclient.WithDialerUnsafe(func(context.Context) (net.Conn, error) { return srv.L.Dial() }), kmipclient.EnforceVersion(kmip.V1_4), kmipclient.WithMiddlewares(mws...)}
+	var cl *kmipclient.Client
+	var err error
+	if i%2 == 1 {
+		// the second way to make a client: a pool of addresses
+		cl, err = kmipclient.DialCluster([]string{"mem-a", "mem-b"}, copts...)
+		c.Count("stale_connection_clients.cluster", 1)
+	} else {
+		cl, err = kmipclient.Dial("mem", copts...)
+	}
 	if err != nil {
 		panic("harness: dial: " + err.Error())
 	}
